@@ -362,19 +362,37 @@ def matchSkippingImplicit : List (Nat × Nat) → List (Nat × Nat) → Bool →
       if a then matchSkippingImplicit os rs oor' else (false, oor')
 termination_by a b => a.length + b.length
 
+/-- what `validate` reads from the tables for one instruction: CommonInfo `_flags`, `_avx512_flags`, its signature rows
+    (`_op_count`, `_mode`, `_implicit_op_count`, the `_op_count` operand signatures `(_flags, _reg_mask)` the row's
+    indexes point to) and whether its encoding is `kEncodingVexRvm_Lx_2xK`. Independent of table *positions*. -/
+structure ResolvedInst where
+  iflags : Nat
+  avx : Nat
+  rows : List (Nat × Nat × Nat × List (Nat × Nat))
+  pairK : Bool
+  deriving DecidableEq, Repr
+
+/-- `inst_info_by_id(id)`, `common_info.inst_signatures()`, `inst_signature.op_signature(j)`; `none` = `!is_defined_id` -/
+def resolve (T : SigTables) (id : Nat) : Option ResolvedInst :=
+  if id ≥ T.insts.length then none else
+  let (iflags, avx, sigIndex, sigCount) := T.insts.getD id (0, 0, 0, 0)
+  some { iflags := iflags, avx := avx,
+         rows := ((T.isigs.drop sigIndex).take sigCount).map fun (opCount, smode, implicitCount, idx) =>
+           (opCount, smode, implicitCount, (idx.take opCount).map fun k => T.osigs.getD k (0, 0)),
+         pairK := T.pairK.contains id }
+
 /-- the loop over `common_info.inst_signatures()`: `some true` = matched, otherwise `global_imm_out_of_range` -/
-def matchSignatures (T : SigTables) (mode : Nat) (ops : List (Nat × Nat)) : List (Nat × Nat × Nat × List Nat) → Bool → Bool × Bool
+def matchSignatures (mode : Nat) (ops : List (Nat × Nat)) : List (Nat × Nat × Nat × List (Nat × Nat)) → Bool → Bool × Bool
   | [], g => (false, g)
-  | (opCount, smode, implicitCount, idx) :: rest, g =>
-    if smode &&& mode = 0 then matchSignatures T mode ops rest g else
-    let refs := (idx.take opCount).map fun k => T.osigs.getD k (0, 0)
+  | (opCount, smode, implicitCount, refs) :: rest, g =>
+    if smode &&& mode = 0 then matchSignatures mode ops rest g else
     let (m, loc) :=
       if opCount = ops.length then matchExplicit ops refs false
       else if opCount - implicitCount = ops.length then matchSkippingImplicit ops refs false
       else (false, false)
     if m then
-      if !loc then (true, false) else matchSignatures T mode ops rest true
-    else matchSignatures T mode ops rest g
+      if !loc then (true, false) else matchSignatures mode ops rest true
+    else matchSignatures mode ops rest g
 
 def isZmmOrM512 : Operand → Bool
   | .reg t _ => t == rtVec512
@@ -402,9 +420,10 @@ def lastMemBase : List Operand → Option Nat
   | .mem _ bt .. :: r => (match lastMemBase r with | some b => some b | none => some bt)
   | _ :: r => lastMemBase r
 
-def validate (T : SigTables) (inst : Inst) (operands : List Operand) : Err :=
-  if inst.id ≥ T.insts.length then .invalidInstruction else
-  let (iflags, avx, sigIndex, sigCount) := T.insts.getD inst.id (0, 0, 0, 0)
+/-- `validate()` after `inst_info_by_id`: everything it does with the instruction's data `R` -/
+def validateR (R : ResolvedInst) (inst : Inst) (operands : List Operand) : Err :=
+  let iflags := R.iflags
+  let avx := R.avx
   let options := inst.options
   let kRepAny := optRep ||| optRepne
   let kXAcqXRel := optXAcquire ||| optXRelease
@@ -451,13 +470,13 @@ def validate (T : SigTables) (inst : Inst) (operands : List Operand) : Err :=
   if e3 ≠ .ok then e3 else
   -- signatures
   let e4 : Err :=
-    if sigCount = 0 then .ok else
-    let (m, g) := matchSignatures T mode sigs ((T.isigs.drop sigIndex).take sigCount) false
+    if R.rows.isEmpty then .ok else
+    let (m, g) := matchSignatures mode sigs R.rows false
     if m then .ok else if g then .invalidImmediate else .invalidInstruction
   if e4 ≠ .ok then e4 else
   -- (fixes/C13-7) vp2intersectd|q write an aligned pair of mask registers
   let ePair : Err :=
-    if T.pairK.contains inst.id then
+    if R.pairK then
       match given with
       | .reg _ k0 :: .reg _ k1 :: _ =>
         if k0 < virtIdMin && k1 < virtIdMin && (k0 % 2 != 0 || k0 + 1 != k1) then .invalidPhysId else .ok
@@ -509,5 +528,10 @@ def validate (T : SigTables) (inst : Inst) (operands : List Operand) : Err :=
     else .invalidExtraReg
 where
   mode := inst.mode
+
+def validate (T : SigTables) (inst : Inst) (operands : List Operand) : Err :=
+  match resolve T inst.id with
+  | none => .invalidInstruction       -- `!Inst::is_defined_id(inst_id)`
+  | some R => validateR R inst operands
 
 end AsmjitVerif.X86Validate
